@@ -1,7 +1,6 @@
 SPECIFICATION Spec
-CONSTANTS MaxTok = 5 MaxDepth = 3
-  Leaves <- LeavesMin
-  RootKinds <- SrcRoot
+CONSTANTS MaxDepth = 3
+  Families <- FamTail
   StoreByCopy = TRUE
   TailKeepsSets = FALSE
 INVARIANT SeenIsExpected
